@@ -32,7 +32,10 @@ def is_expr(node):
 
 # ---------------------------------------------------------------- rendering
 def _num_str(s, style):
-    f = Fraction(s)
+    try:
+        f = Fraction(s)
+    except (ValueError, ZeroDivisionError):
+        return str(s)       # a symbolic constant (e.g. a probability called p)
     if style == "decimal" and f.denominator in (2, 4, 8, 5, 10) and f.denominator != 1:
         txt = repr(float(f))
         return txt if f >= 0 else f"({txt})"
